@@ -8,6 +8,12 @@ sub-environment do `kind`:
   "sleep"  sleep `arg` seconds (longer than every timeout used by the harness), then go on
   "stuck"  sleep for an hour: the sub-environment never comes back within any test
   "kill"   os.kill(os.getpid(), SIGKILL) — the worker process dies without any reply
+  "busykill"  stay busy for `arg` seconds (longer than every short timeout), then die without any reply:
+           the death happens while the parent is doing something else (e.g. waiting for the `close`
+           acknowledgement with the `close` command still unread in the dead worker's socket)
+`command` may also be "close": the fault fires inside the sub-environment's OWN `close()`, which the
+worker runs when it leaves its loop — after it reported an exception, or after it acknowledged the
+parent's `close` command (the worker is then outside the request / reply protocol but still a process).
 Only the sub-environment whose `index` matches a fault's worker gets that fault (the factory
 `make_fn` filters).  Episodes never end, so the worker never auto-resets (an auto-reset would be
 an extra, uncounted `reset`).
@@ -20,6 +26,7 @@ from __future__ import annotations
 
 import os
 import signal
+import threading
 import time
 
 import numpy as np
@@ -51,11 +58,62 @@ class UnpicklableFault(Exception):
         super().__init__(msg, lambda: 0)
 
 
+# ---- exception CLASSES that cannot be pickled by reference (pickle stores module + qualified name)
+def _closure_class():
+    class LocalClassFault(Exception):
+        """defined inside a function: `envs_fault._closure_class.<locals>.LocalClassFault` is not importable"""
+    return LocalClassFault
+
+
+def _dynamic_class():
+    # created with type(): its qualified name does not resolve to an attribute of this module
+    return type("DynamicTypeFault", (Exception,), {"__doc__": "class object made at run time"})
+
+
+class ShadowedClassFault(Exception):
+    """the importable class of this name — NOT the one that is raised (see `_shadowed_class`)"""
+
+
+def _shadowed_class():
+    # same module and qualified name as the importable class above, but another object:
+    # pickle refuses ("not the same object as envs_fault.ShadowedClassFault")
+    return type("ShadowedClassFault", (Exception,), {"__module__": __name__, "__qualname__": "ShadowedClassFault"})
+
+
+# ---- importable classes whose INSTANCES do not survive pickling
+class UnpicklableStateFault(Exception):
+    """picklable arguments, but the instance dictionary holds a lock"""
+
+    def __init__(self, msg):
+        super().__init__(msg)
+        self.guard = threading.Lock()
+
+
+class ReduceRaisesFault(Exception):
+    """pickling the instance itself raises"""
+
+    def __reduce__(self):
+        raise RuntimeError("this exception refuses to be pickled")
+
+
+class LoadFailsFault(Exception):
+    """pickles, but cannot be rebuilt on the other side (its reduce recipe is wrong)"""
+
+    def __reduce__(self):
+        return (LoadFailsFault, ())
+
+    def __init__(self, msg):
+        super().__init__(msg)
+
+
 EXC = {"ValueError": ValueError, "IndexError": IndexError, "RuntimeError": RuntimeError,
        "ZeroDivisionError": ZeroDivisionError, "CustomFault": CustomFault,
        "KeyboardInterrupt": KeyboardInterrupt, "FileNotFoundError": FileNotFoundError,
        "TwoArgsFault": lambda m: TwoArgsFault(7, m), "KwOnlyFault": lambda m: KwOnlyFault(msg=m),
-       "UnpicklableFault": UnpicklableFault}
+       "UnpicklableFault": UnpicklableFault,
+       "LocalClassFault": lambda m: _closure_class()(m), "DynamicTypeFault": lambda m: _dynamic_class()(m),
+       "ShadowedClassFault": lambda m: _shadowed_class()(m), "UnpicklableStateFault": UnpicklableStateFault,
+       "ReduceRaisesFault": ReduceRaisesFault, "LoadFailsFault": LoadFailsFault}
 STUCK_S = 3600.0
 
 
@@ -63,12 +121,13 @@ class FaultEnv(ParallelEnv):
     metadata = {"name": "fault_env_v0", "render_modes": []}
     render_mode = None
 
-    def __init__(self, index: int = 0, faults=()):
+    def __init__(self, index: int = 0, faults=(), home_pid: int = -1):
         self.index = index
+        self.home_pid = home_pid     # the process that built the vector env: its probing instance has no faults
         self.faults = [tuple(f) for f in faults]
         self.possible_agents = ["a0", "a1"]
         self.agents = self.possible_agents[:]
-        self.counts = {"reset": 0, "step": 0, "call": 0, "set_attr": 0}
+        self.counts = {"reset": 0, "step": 0, "call": 0, "set_attr": 0, "close": 0}
         self._armed = True
         object.__setattr__(self, "_ready", True)
 
@@ -85,6 +144,10 @@ class FaultEnv(ParallelEnv):
                 elif kind == "stuck":
                     time.sleep(STUCK_S)
                 elif kind == "kill":
+                    os.kill(os.getpid(), signal.SIGKILL)
+                    time.sleep(60)
+                elif kind == "busykill":
+                    time.sleep(float(arg))
                     os.kill(os.getpid(), signal.SIGKILL)
                     time.sleep(60)
 
@@ -133,7 +196,11 @@ class FaultEnv(ParallelEnv):
         return (self.index, self.counts["call"])
 
     def close(self):
-        pass
+        """the sub-environment's own clean-up: the worker calls it when it leaves its loop
+        (the vector env's constructor also builds and closes a throw-away instance in the PARENT to read the
+        spaces: that one is not a sub-environment and never faults)"""
+        if os.getpid() != self.home_pid:
+            self._hit("close")
 
 
 class EnvFn:
@@ -142,9 +209,10 @@ class EnvFn:
     def __init__(self, index: int, script):
         self.index = index
         self.faults = [(cmd, at, kind, arg) for (w, cmd, at, kind, arg) in script if w == index]
+        self.home_pid = os.getpid()
 
     def __call__(self):
-        return FaultEnv(self.index, self.faults)
+        return FaultEnv(self.index, self.faults, self.home_pid)
 
 
 def make_fns(num_envs: int, script):
